@@ -1501,6 +1501,7 @@ class Interp:
     merge_specs = True
     base_pc = ()
     opaque_specs = ()
+    _uf_cache = {}
 
     def _argkey(self, st, v, depth=0):
         if isinstance(v, (SInt, SBool)):
